@@ -135,9 +135,13 @@ fn ack_emission(groups: usize) {
     } else if reply || groups > 0 {
         assert!(sink.n == 1, "[C11] a sync frame is always answered, and owed ack groups are sent, when credit allows");
         assert!(sink.head[0] == 12 && be32(&sink.head, 1) == fbase && be32(&sink.head, 5) == 0xFFFFE, "[C11] the ack frame carries both current window bases");
-        assert!(sink.last_len == 15 + 9 * groups && ((sink.head[9] as usize) << 8 | sink.head[10] as usize) == groups);
+        let sent_groups = (sink.head[9] as usize) << 8 | sink.head[10] as usize;
+        assert!(sent_groups <= groups && sink.last_len == 15 + 9 * sent_groups, "[C13,C16] frame length matches its group count");
         assert!(hc.flush_alloc == credit - sink.bytes as isize, "[C13] every byte sent is debited");
-        assert!(!hc.sync_reply && hc.frame_ack_queue.peek().is_none());
+        assert!(!hc.sync_reply, "[C11] the sync frame has been answered");
+        if credit >= (15 + 9 * groups) as isize {
+            assert!(sent_groups == groups && hc.frame_ack_queue.peek().is_none() && r.is_ok(), "[C11] with enough credit every owed ack group is sent");
+        }
     } else {
         assert!(sink.n == 0 && hc.flush_alloc == credit);
     }
